@@ -458,3 +458,71 @@ def orphan_records(d, rows):
             if not ok:
                 out.append((iid, k))
     return out
+
+
+OPMASK = 281474439643135
+
+
+def kinds_without_origin(d, rows):
+    """(instruction id, record index, operand index, kind bit) of signature-record operand kinds that no admitted database row names
+    (python twin of ValidateModel.kinds_have_origin; systematic additions kMemUnspecified / kRegGpbHi-next-to-kRegGpbLo exempt)"""
+    import collections
+    byinst = collections.defaultdict(list)
+    for r in rows:
+        byinst[r[1]].append(r)
+    inst = d["x86.inst"]; isig = d["x86.isig"]; osig = d["x86.osig"]
+
+    def compat(need, fixed, impl, fl, mask):
+        if (fl & need) != need or bool(fl & OF_IMPLICIT) != bool(impl) or bool(fl & OF_MEMBASE) != bool(need & OF_MEMBASE):
+            return False
+        if need & 0xFFFF and ((fixed == 0 and mask != 0) or (fixed and mask and not (mask & fixed))):
+            return False
+        return True
+    out = []
+    for iid in range(1, len(inst) // 4):
+        for k in range(inst[4 * iid + 3]):
+            s = isig[9 * (inst[4 * iid + 2] + k):9 * (inst[4 * iid + 2] + k) + 9]
+            refs = [(osig[2 * s[3 + q]], osig[2 * s[3 + q] + 1]) for q in range(s[0])]
+            cands = [r for r in byinst.get(iid, []) if len(r[3]) == s[0] and (r[2] & s[1]) and all(compat(n, f, i, *refs[q]) for q, (n, f, i) in enumerate(r[3]))]
+            for q, (fl, mask) in enumerate(refs):
+                for sh in range(48):
+                    b = 1 << sh
+                    if not (fl & b & OPMASK) or b == 0x40000 or (b == 2 and fl & 1):
+                        continue
+                    if not any(r[3][q][0] & b for r in cands):
+                        out.append((iid, k, q, b))
+    return out
+
+
+# ------------------------------------------------------------------ decorations the database grants, as flag bits of the instruction tables
+DECOR_IF = {"lock": 65536, "xacquire": 131072, "xrelease": 262144, "rep": 16384, "repne": 16384}
+DECOR_AF = {"k": 1, "z": 2, "er": 4, "sae": 8, "b16": 16, "b32": 32, "b64": 64}
+IF_EVEX = 8388608
+
+
+def db_decorations(forms, name_to_id):
+    """-> {inst id: set of decoration names} over all forms of the instruction"""
+    import collections
+    need = collections.defaultdict(set)
+    for f in forms:
+        i = name_to_id.get(f["name"])
+        if i is None:
+            continue
+        for p in ("lock", "xacquire", "xrelease", "rep", "repne"):
+            if f["prefixes"].get(p):
+                need[i].add(p)
+        for k in ("k", "z", "er", "sae"):
+            if f[{"k": "kmask", "z": "zmask"}.get(k, k)]:
+                need[i].add(k)
+        if f["broadcast"]:
+            for o in f["operands"]:
+                if o.get("bcstSize", 0) in (16, 32, 64):
+                    need[i].add("b%d" % o["bcstSize"])
+    return need
+
+
+def decoration_has(d, iid, dec):
+    fl, av = d["x86.inst"][4 * iid], d["x86.inst"][4 * iid + 1]
+    if dec in DECOR_IF:
+        return bool(fl & DECOR_IF[dec])
+    return bool(av & DECOR_AF[dec]) and bool(fl & IF_EVEX)
